@@ -246,3 +246,45 @@ Proof.
   cbv zeta. split; [|repeat split; vm_compute; reflexivity].
   exact (EthTypes.Spec.den_json (EthTypes.Spec.mkJ false (ascii_bytes "25") (Some (ascii_bytes "5")) (Some (false, 0%N, ascii_bytes "1"))) eq_refl).
 Qed.
+
+(* 10. (round 3) Arity errors at ANY depth.  Theorem 6 is about the node that is given the wrong
+       sequence; here the walk of the whole parameter list is shown to succeed only if the walk of
+       every (component, input) pair it visits - through array elements, tuple positions and object
+       keys, to any nesting (`below`) - succeeds.  Hence: a fixed array or tuple given a sequence of
+       another length, or an object lacking a member's key, ANYWHERE in the input makes
+       ParseExternalData fail, and EncodeABIDataValues / EncodeCallDataValues return no data. *)
+From FFS Require Import Abi.InputProofs3.
+Theorem C02_nested_arity_rejected :
+  forall (bifs : bytes -> res Z) params input,
+  (forall len c k x l, below (root_of params) input (TCFixedArr len c k) x ->
+     as_slice x = Some l -> Z.of_nat (length l) <> len ->
+     forall cv, walkInput bifs (root_of params) input <> Ok cv) /\
+  (forall ts k x l, below (root_of params) input (TCTuple ts k) x ->
+     as_slice x = Some l -> length l <> length ts ->
+     forall cv, walkInput bifs (root_of params) input <> Ok cv) /\
+  (forall ts k m i t, below (root_of params) input (TCTuple ts k) (XMap m) ->
+     nth_error ts i = Some t -> lookup (effective_key t i) m = None ->
+     forall cv, walkInput bifs (root_of params) input <> Ok cv) /\
+  (forall tc x, below (root_of params) input tc x ->
+     (forall cv, walkInput bifs tc x <> Ok cv) ->
+     (forall r, EncodeABIDataValues bifs params input <> Ok r) /\
+     (forall sel r, EncodeCallDataValues bifs sel params input <> Ok r)).
+Proof. exact nested_arity_rejected. Qed.
+Print Assumptions C02_nested_arity_rejected.
+
+(* uint8[2][] given [[1,2],[1]]: the second row (two levels below the parameter list) is short *)
+Example C02_nested_arity_nonvacuous :
+  let u8 := int_tc EUInt (ascii_bytes "8") 8 [] in
+  let row := TCFixedArr 2 u8 [] in
+  let one := XJNum (ascii_bytes "1") in
+  let params := [TCDynArr row []] in
+  let input := XList [XList [XList [one; one]; XList [one]]] in
+  below (root_of params) input row (XList [one]) /\
+  as_slice (XList [one]) = Some [one] /\ Z.of_nat (length [one]) <> 2%Z /\
+  EncodeABIDataValues BigIntegerFromString params input = Err EFixedLenMismatch /\
+  is_ok (EncodeABIDataValues BigIntegerFromString params (XList [XList [XList [one; one]; XList [one; one]]])) = true.
+Proof.
+  cbv zeta. split; [|split; [reflexivity|split; [discriminate|split; vm_compute; reflexivity]]].
+  eapply B_step; [eapply (SI_tuple_pos _ _ _ _ 0%nat); reflexivity|].
+  eapply B_step; [eapply (SI_dyn _ _ _ _ 1%nat); reflexivity|]. apply B_here.
+Qed.
